@@ -10,13 +10,467 @@
 //! own names (`scope-…`: a decision service used as a function inside a larger expression, a boxed invocation
 //! without bindings, a knowledge model with a boxed-context body) and a sample of generated graphs, against the
 //! Lean model of requirement graphs — a context left behind or popped once too often shows as a wrong value.
+//!
+//! Parser half ("a successful parse leaves the parsing scope as it found it"; the theorem
+//! `parse_scope_balanced` is about the table `lean/Dmn/Gen/ParserScope.lean`, regenerated from the sources):
+//! `parse_families` parses a corpus that reaches every reduce action with a scope effect through every public
+//! entry point, and generated expressions, in caller scopes of 0, 1, 2 and 3 contexts whose entries carry the
+//! very names the expressions bind; the scope must print the same before and after every successful parse.
+//! Which scope-affecting reduce actions each parse exercised is read off the syntax tree and counted: an
+//! action the translator finds to have a scope effect and that no parse exercised is reported (the tie would
+//! have a hole).  Failed parses (every prefix of the corpus texts and a few garbled variants) are observed and
+//! counted — the property does not speak of them.
 
-use crate::report::Report;
+use crate::report::{Kind, Report};
+use crate::rng::Rng;
+use crate::sexp::Sexp;
+use crate::util::guarded;
+use crate::vals::ast_sexp;
 use crate::Cfg;
+use dmntk_feel::context::FeelContext;
+use dmntk_feel::values::Value;
+use dmntk_feel::{AstNode, FeelNumber, Name, Scope};
+use serde_json::json;
+use std::collections::{BTreeMap, BTreeSet};
 
 pub fn run(cfg: &Cfg) -> Report {
   let mut rep = crate::c01::run_with(cfg, "C13");
   let thorough = cfg.tier == "thorough";
   crate::c04::run_graphs(cfg, &mut rep, if thorough { 1500 } else { 150 }, false, "scope-");
+  parse_families(cfg, &mut rep);
   rep
+}
+
+/// The reduce actions with a scope effect, as the translator found them (`actionEffects` of the regenerated
+/// table; the harness runs with the verification directory as working directory).  Fallback: the list at
+/// the time of writing.
+fn scope_actions() -> (Vec<String>, bool) {
+  let fallback = || {
+    [
+      "context_begin",
+      "context_end",
+      "context_entry",
+      "every",
+      "every_begin",
+      "for",
+      "for_begin",
+      "formal_parameter_with_type",
+      "formal_parameter_without_type",
+      "formal_parameters_begin",
+      "function_body",
+      "function_body_external",
+      "iteration_context_variable_name",
+      "quantified_expression_variable_name",
+      "some",
+      "some_begin",
+    ]
+    .iter()
+    .map(|s| s.to_string())
+    .collect::<Vec<String>>()
+  };
+  let text = match std::fs::read_to_string("lean/Dmn/Gen/ParserScope.lean") {
+    Ok(t) => t,
+    Err(_) => return (fallback(), false),
+  };
+  let mut out = vec![];
+  let mut inside = false;
+  for line in text.lines() {
+    if line.starts_with("def actionEffects") {
+      inside = true;
+      continue;
+    }
+    if inside {
+      let l = line.trim();
+      if l == "]" {
+        break;
+      }
+      // `/-  16 context_begin -/ [.push],`
+      if let (Some(a), Some(b)) = (l.find("/-"), l.find("-/")) {
+        let name = l[a + 2..b].split_whitespace().last().unwrap_or("").to_string();
+        let effs = l[b + 2..].trim().trim_end_matches(',').trim();
+        if effs != "[]" && !name.is_empty() {
+          out.push(name);
+        }
+      }
+    }
+  }
+  if out.is_empty() {
+    (fallback(), false)
+  } else {
+    (out, true)
+  }
+}
+
+/// The scope-affecting reduce actions a successful parse must have executed, read off its syntax tree.
+fn exercised(n: &Sexp, text: &str, out: &mut BTreeSet<&'static str>) {
+  if let Sexp::List(xs) = n {
+    if let Some(Sexp::Atom(tag)) = xs.first() {
+      match tag.as_str() {
+        "for" => {
+          out.insert("for_begin");
+          out.insert("for");
+        }
+        "some" => {
+          out.insert("some_begin");
+          out.insert("some");
+        }
+        "every" => {
+          out.insert("every_begin");
+          out.insert("every");
+        }
+        "context" => {
+          out.insert("context_begin");
+          out.insert("context_end");
+        }
+        "contextEntry" => {
+          out.insert("context_entry");
+        }
+        "iterationContextSingle" | "iterationContextRange" => {
+          out.insert("iteration_context_variable_name");
+        }
+        "quantifiedContext" => {
+          out.insert("quantified_expression_variable_name");
+        }
+        "functionDefinition" => {
+          out.insert("formal_parameters_begin");
+        }
+        "functionBody" => {
+          let ext = matches!(xs.last(), Some(Sexp::Atom(a)) if a == "true");
+          out.insert(if ext { "function_body_external" } else { "function_body" });
+        }
+        "formalParameter" => {
+          // `x` and `x: Any` give the same tree: counted as typed only when the type is not Any, as untyped
+          // only when the text has no `: Any`
+          let any = xs.get(2).map(|t| t.to_string().contains("any")).unwrap_or(false);
+          if !any {
+            out.insert("formal_parameter_with_type");
+          } else if !text.contains(": Any") && !text.contains(":Any") {
+            out.insert("formal_parameter_without_type");
+          }
+        }
+        _ => {}
+      }
+      for c in &xs[1..] {
+        exercised(c, text, out);
+      }
+    }
+  }
+}
+
+type ParseFn = fn(&Scope, &str, bool) -> dmntk_common::Result<AstNode>;
+
+fn parse_name_as_node(scope: &Scope, text: &str, trace: bool) -> dmntk_common::Result<AstNode> {
+  dmntk_feel_parser::parse_name(scope, text, trace).map(AstNode::Name)
+}
+
+fn entry_points() -> Vec<(&'static str, ParseFn)> {
+  vec![
+    ("parse_expression", dmntk_feel_parser::parse_expression as ParseFn),
+    ("parse_textual_expression", dmntk_feel_parser::parse_textual_expression as ParseFn),
+    ("parse_textual_expressions", dmntk_feel_parser::parse_textual_expressions as ParseFn),
+    ("parse_unary_tests", dmntk_feel_parser::parse_unary_tests as ParseFn),
+    ("parse_boxed_expression", dmntk_feel_parser::parse_boxed_expression as ParseFn),
+    ("parse_context", dmntk_feel_parser::parse_context as ParseFn),
+    ("parse_name", parse_name_as_node as ParseFn),
+  ]
+}
+
+/// Caller scopes: no context at all, one empty context, two and three contexts whose entries carry the names
+/// the corpus binds (`x`, `y`, `partial`, `a`, `b`, `f`, `item`) with non-null values — an entry written into
+/// a caller's context, or a caller's context popped, shows in `Display`.
+fn caller_scopes() -> Vec<(&'static str, Vec<FeelContext>)> {
+  let num = |n: i64| Value::Number(FeelNumber::from(n));
+  let mk = |names: &[&str], base: i64| {
+    let mut c = FeelContext::default();
+    for (i, n) in names.iter().enumerate() {
+      c.set_entry(&Name::from(*n), num(base + i as i64));
+    }
+    c
+  };
+  let (_, _, base) = crate::c01::base_scope();
+  vec![
+    ("no context", vec![]),
+    ("one empty context", vec![FeelContext::default()]),
+    ("two contexts binding the names of the text", vec![mk(&["x", "partial", "a", "n1"], 10), mk(&["y", "b", "f", "item", "x"], 20)]),
+    (
+      "three contexts (base scope of the generated programs and one on top)",
+      vec![base[0].clone(), base[1].clone(), mk(&["x", "y", "partial", "a"], 30)],
+    ),
+  ]
+}
+
+fn fresh_scope(ctxs: &[FeelContext]) -> Scope {
+  let scope = Scope::new();
+  for c in ctxs {
+    scope.push(c.clone());
+  }
+  scope
+}
+
+/// Texts that reach every scope-affecting reduce action; (entry point, text).
+fn corpus() -> Vec<(&'static str, &'static str)> {
+  let mut v = vec![];
+  let expressions = [
+    // for / iteration contexts (list and range), `partial`, several variables, nesting
+    "for x in [1, 2, 3] return x + 1",
+    "for x in 1..3 return x",
+    "for x in [1, 2], y in [x, 3] return x * y",
+    "for x in [1, 2] return for y in [x] return partial",
+    "for x in [1, 2] return partial",
+    // some / every
+    "some x in [1, 2, 3] satisfies x > 2",
+    "every x in [1, 2], y in [3] satisfies x < y",
+    "some x in [1] satisfies every y in [x] satisfies y = x",
+    // contexts: entries visible to later entries, nested, string keys, empty
+    "{}",
+    "{a: 1}",
+    "{a: 1, b: a + 1}",
+    "{a: {b: 1, c: b}, d: a.c}",
+    "{\"a b\": 1, c: 2}",
+    "{a: for x in [1] return x, b: some y in [a] satisfies y = [1]}",
+    // function definitions: no parameter, untyped, typed, several, external, nested, invoked
+    "function() 1",
+    "function(x) x + 1",
+    "function(x: number) x + 1",
+    "function(x, y: string, z: list<number>) [x, y, z]",
+    "function(x: Any) x",
+    "function(a, b) external {java: {class: \"c\", method signature: \"m\"}}",
+    "function(x) function(y) x + y",
+    "function(x) {a: x, b: a}",
+    "(function(x) x * 2)(3)",
+    "{f: function(x) x, r: f(1)}.r",
+    // mixtures under every other construct that takes expressions
+    "if (some x in [1] satisfies x = 1) then (for y in [1] return y) else {a: 1}",
+    "[for x in [1] return x, {a: 1}, function(x) x][1]",
+    "[{a: 1}, {a: 2}][a > 1]",
+    "(for x in [1, 2] return x) = [1, 2] and {a: true}.a or false",
+    "1 in (for x in [1] return x)",
+    "5 between (for x in [1] return x)[1] and {b: 9}.b",
+    "{a: 1} instance of context<a: number>",
+    "(function(x: number) x) instance of function<number> -> number",
+    "-(for x in [1] return x)[1] + {a: 2}.a * 3 ** 2",
+    "x", "partial + 1", "a.b", "1 + 2",
+  ];
+  for t in expressions {
+    v.push(("parse_expression", t));
+  }
+  for t in expressions {
+    // a boxed expression at the top is not a textual expression: those are rejected there, the others accepted
+    v.push(("parse_textual_expression", t));
+    v.push(("parse_boxed_expression", t));
+  }
+  for t in ["1, for x in [1] return x, {a: 1}.a", "some x in [1] satisfies x = 1", "(function(x) x)(1), 2"] {
+    v.push(("parse_textual_expressions", t));
+  }
+  for t in [
+    "-",
+    "1, 2",
+    "not(1, 2)",
+    "< 5, [1..2]",
+    "for x in [1] return x",
+    "{a: 1}.a, (function(x) x)(2)",
+    "not(some x in [1] satisfies x = 1)",
+    "[1, 2], every y in [1] satisfies y > 0",
+  ] {
+    v.push(("parse_unary_tests", t));
+  }
+  for t in ["{}", "{a: 1, b: a}", "{a: function(x) x, b: for y in [1] return y}", "{a: {b: {c: 1}}}"] {
+    v.push(("parse_context", t));
+  }
+  for t in ["x", "a b", "n1", "for"] {
+    v.push(("parse_name", t));
+  }
+  v
+}
+
+pub fn parse_families(cfg: &Cfg, rep: &mut Report) {
+  let thorough = cfg.tier == "thorough";
+  let (scope_acts, from_table) = scope_actions();
+  let known: BTreeSet<&str> = [
+    "context_begin",
+    "context_end",
+    "context_entry",
+    "every",
+    "every_begin",
+    "for",
+    "for_begin",
+    "formal_parameter_with_type",
+    "formal_parameter_without_type",
+    "formal_parameters_begin",
+    "function_body",
+    "function_body_external",
+    "iteration_context_variable_name",
+    "quantified_expression_variable_name",
+    "some",
+    "some_begin",
+  ]
+  .into_iter()
+  .collect();
+  let entries = entry_points();
+  let scopes = caller_scopes();
+  let mut counts: BTreeMap<String, u64> = BTreeMap::new();
+  let mut ok_parses = 0u64;
+  let mut failed_parses = 0u64;
+  let mut leftovers: BTreeMap<String, u64> = BTreeMap::new();
+  let mut leftover_sample: Option<serde_json::Value> = None;
+
+  // one parse; returns the scope-affecting actions exercised when the parse succeeded
+  let mut one = |rep: &mut Report, entry: &str, f: ParseFn, text: &str, scope_name: &str, ctxs: &[FeelContext], expect_ok: bool| {
+    crate::util::note_case(text);
+    let scope = fresh_scope(ctxs);
+    let before = scope.to_string();
+    let res = guarded(|| f(&scope, text, false));
+    let after = scope.to_string();
+    match res {
+      Ok(Ok(node)) => {
+        ok_parses += 1;
+        let mut acts = BTreeSet::new();
+        exercised(&ast_sexp(&node), text, &mut acts);
+        rep.case(&format!("parse|{}|{}|{}", entry, scope_name, text), !acts.is_empty());
+        rep.hit(&format!("parse-scope:entry:{}", entry));
+        rep.hit(&format!("parse-scope:caller:{}", scope_name));
+        for a in &acts {
+          *counts.entry(a.to_string()).or_insert(0) += 1;
+        }
+        if after != before {
+          rep.disagree(
+            Kind::ImplVsSpec,
+            "parse_scope_balanced",
+            "the parsing scope differs after a successful parse (parse families)",
+            &format!("{}({:?}) in a scope of {}: {}", entry, text, scope_name, before),
+            &after,
+            &before,
+          );
+        }
+      }
+      Ok(Err(_)) => {
+        failed_parses += 1;
+        rep.evaluations += 1;
+        // the property does not speak of failed parses: observe what they leave behind
+        let mut n_after = 0usize;
+        while scope.pop().is_some() {
+          n_after += 1;
+          if n_after > 64 {
+            break;
+          }
+        }
+        let state = if after == before {
+          "parse-error:scope unchanged".to_string()
+        } else if n_after > ctxs.len() {
+          // are the caller's own contexts intact below what was left behind?
+          let again = fresh_scope(ctxs);
+          let _ = guarded(|| f(&again, text, false));
+          for _ in 0..(n_after - ctxs.len()) {
+            again.pop();
+          }
+          let intact = again.to_string() == before;
+          format!(
+            "parse-error:{} context(s) of the parse left on the scope, caller's contexts {}",
+            n_after - ctxs.len(),
+            if intact { "intact" } else { "CHANGED" }
+          )
+        } else if n_after < ctxs.len() {
+          format!("parse-error:{} caller context(s) popped", ctxs.len() - n_after)
+        } else {
+          "parse-error:same number of contexts, an entry of the caller's changed".to_string()
+        };
+        if after != before && leftover_sample.is_none() {
+          leftover_sample = Some(json!({"family": "failed parse (observed, not judged)", "entry": entry, "text": text, "scope before": before, "scope after": after}));
+        }
+        rep.hit(&state);
+        *leftovers.entry(state).or_insert(0) += 1;
+        if expect_ok {
+          rep.hit("parse-scope:corpus text rejected");
+        }
+      }
+      Err(m) => {
+        rep.disagree(Kind::ImplVsSpec, "parse_no_panic", "the parser panics (parse families)", &format!("{}({:?})", entry, text), &m, "a syntax tree or an error");
+      }
+    }
+  };
+
+  // ---- 1. the corpus through every entry point in every caller scope
+  for (entry, text) in corpus() {
+    let f = entries.iter().find(|(n, _)| *n == entry).map(|(_, f)| *f).expect("entry point");
+    for (scope_name, ctxs) in &scopes {
+      one(rep, entry, f, text, scope_name, ctxs, entry == "parse_expression" || entry == "parse_context");
+    }
+  }
+  // ---- 2. generated expressions (the typed grammar of C01) in the base scope and with one more context on top
+  {
+    let (_, vars, base) = crate::c01::base_scope();
+    let mut rng = Rng::new(cfg.seed ^ 0xC13_5C0);
+    let n = if thorough { 40_000 } else { 3_000 };
+    let max_depth = if thorough { 5 } else { 3 };
+    let mut g = crate::c01::Gen { rng: &mut rng, fresh: 0 };
+    let three = scopes[3].1.clone();
+    for i in 0..n {
+      let d = 1 + (i as u32 % max_depth);
+      let text = g.any(d, &vars);
+      if i % 2 == 0 {
+        one(rep, "parse_expression", dmntk_feel_parser::parse_expression as ParseFn, &text, "base scope of the generated programs", &base, false);
+      } else {
+        one(rep, "parse_unary_tests", dmntk_feel_parser::parse_unary_tests as ParseFn, &text, scopes[3].0, &three, false);
+      }
+    }
+  }
+  // ---- 3. failed parses: every prefix of the corpus texts, and garbled variants
+  {
+    let mut rng = Rng::new(cfg.seed ^ 0xBAD_5C0);
+    let two = scopes[2].1.clone();
+    let junk = [")", "]", "}", " return", " satisfies", ",", " in", " then", "(", "{", " function(", " for x in"];
+    for (entry, text) in corpus() {
+      if entry != "parse_expression" && entry != "parse_context" && entry != "parse_unary_tests" {
+        continue;
+      }
+      let f = entries.iter().find(|(n, _)| *n == entry).map(|(_, f)| *f).expect("entry point");
+      let cuts: Vec<usize> = text.char_indices().map(|(i, _)| i).filter(|i| *i > 0).collect();
+      for c in cuts {
+        one(rep, entry, f, &text[..c], scopes[2].0, &two, false);
+      }
+      for _ in 0..3 {
+        let cuts: Vec<usize> = text.char_indices().map(|(i, _)| i).collect();
+        let at = *rng.pick(&cuts);
+        let garbled = format!("{}{}{}", &text[..at], rng.pick(&junk), &text[at..]);
+        one(rep, entry, f, &garbled, scopes[2].0, &two, false);
+      }
+    }
+  }
+  drop(one);
+  // ---- coverage of the scope-affecting actions
+  for a in &scope_acts {
+    let n = counts.get(a).copied().unwrap_or(0);
+    rep.hit(&format!("parse-scope:action:{}:{}", a, if n > 0 { "exercised" } else { "NEVER" }));
+    if !known.contains(a.as_str()) {
+      rep.disagree(
+        Kind::ImplVsModel,
+        "parse_scope_coverage",
+        "a reduce action has a scope effect and the parse families have no construct for it",
+        a,
+        "not exercised",
+        "every scope-affecting reduce action is exercised by successful parses",
+      );
+    } else if n == 0 {
+      rep.disagree(
+        Kind::ImplVsModel,
+        "parse_scope_coverage",
+        "a scope-affecting reduce action was never exercised by a successful parse of the parse families",
+        a,
+        "0 successful parses",
+        "at least one",
+      );
+    }
+  }
+  rep.extra.insert(
+    "parse_scope".into(),
+    json!({
+      "scope_affecting_actions": scope_acts,
+      "read_from_regenerated_table": from_table,
+      "successful_parses_exercising": counts,
+      "successful_parses": ok_parses,
+      "failed_parses_observed": failed_parses,
+      "after_failed_parse": leftovers,
+      "failed_parse_example": leftover_sample,
+    }),
+  );
 }
